@@ -815,6 +815,7 @@ class Container:
         else:
             raise ValueError("Invalid quantity unit.")
 
+        original_contents = source_container.contents
         source_container, to = deepcopy(source_container), deepcopy(self)
         for substance, amount in source_container.contents.items():
             to_transfer = amount * ratio
@@ -830,11 +831,11 @@ class Container:
             transfer = Unit.convert_from_storage(ratio * source_container.volume, 'L')
             transfer, unit = Unit.get_human_readable_unit(transfer, 'L')
         else:
-            # total mass in source container times ratio
+            # total mass (in grams) of what the source container held, times ratio
             mass = sum(Unit.convert(substance,
                                     f"{amount} {config.moles_storage_unit if not substance.is_enzyme() else 'U'}",
-                                    "mg") for substance, amount in source_container.contents.items())
-            transfer, unit = Unit.get_human_readable_unit(mass * ratio, 'mg')
+                                    "g") for substance, amount in original_contents.items())
+            transfer, unit = Unit.get_human_readable_unit(mass * ratio, 'g')
         precision = config.precisions[unit] if unit in config.precisions else config.precisions['default']
         to.instructions += f"\nTransfer {round(transfer, precision)} {unit} of {source_container.name} to {to.name}"
         to.volume = 0
